@@ -349,6 +349,11 @@ def d2b_returned_index(ctx):
             for d in defs:
                 n += 1
                 v = d.value
+                if d.unpack_index is not None and isinstance(v, ast.Tuple) and d.unpack_index < len(v.elts):
+                    v = v.elts[d.unpack_index]
+                if isinstance(v, ast.Constant) and v.value is None:
+                    ctx.ok(fi, d.stmt, d.stmt, "no index on the path that has no geometry", key="ret-none")
+                    continue
                 if isinstance(v, ast.Call) and call_name(v) == "arange":
                     # identity: th must not have been permuted on this path by another index
                     ctx.ok(fi, d.stmt, d.stmt, "identity index on the unsorted path", key="ret-identity")
